@@ -69,6 +69,8 @@ package tracing
 
 //@ fn lookupOrCreateReceiverTaskID
 //@   trusted
+//@   requires c33IDGenOK()
+//@   ensures c33IDGenOK()
 //@   panics typeid(msg) == 0
 //@   ensures c32RegGet(c32Recv, old(c32Recv), c33Name(domain), c33MsgID(msg), result) && c32Drew(old(c32Recv), c33Name(domain), c33MsgID(msg), result)
 //@   assigns c32Recv, c33Drawn, c33Issued, key("G|github.com/sarchlab/akita/v5/timing.idGenerator|"), key("G|github.com/sarchlab/akita/v5/timing.idGeneratorInstantiated|"), key("O|timing.sequentialIDGenerator|nextID"), key("O|timing.parallelIDGenerator|nextID")
@@ -87,6 +89,8 @@ package tracing
 //@   assigns c32Recv
 //@ fn lookupOrCreateIncomingBufferTaskID
 //@   trusted
+//@   requires c33IDGenOK()
+//@   ensures c33IDGenOK()
 //@   panics typeid(msg) == 0
 //@   ensures c32RegGet(c32InBuf, old(c32InBuf), c33Name(domain), c33MsgID(msg), result) && c32Drew(old(c32InBuf), c33Name(domain), c33MsgID(msg), result)
 //@   assigns c32InBuf, c33Drawn, c33Issued, key("G|github.com/sarchlab/akita/v5/timing.idGenerator|"), key("G|github.com/sarchlab/akita/v5/timing.idGeneratorInstantiated|"), key("O|timing.sequentialIDGenerator|nextID"), key("O|timing.parallelIDGenerator|nextID")
@@ -96,6 +100,8 @@ package tracing
 //@   assigns c32InBuf
 //@ fn lookupOrCreateOutgoingBufferTaskID
 //@   trusted
+//@   requires c33IDGenOK()
+//@   ensures c33IDGenOK()
 //@   panics typeid(msg) == 0
 //@   ensures c32RegGet(c32OutBuf, old(c32OutBuf), c33Name(domain), c33MsgID(msg), result) && c32Drew(old(c32OutBuf), c33Name(domain), c33MsgID(msg), result)
 //@   assigns c32OutBuf, c33Drawn, c33Issued, key("G|github.com/sarchlab/akita/v5/timing.idGenerator|"), key("G|github.com/sarchlab/akita/v5/timing.idGeneratorInstantiated|"), key("O|timing.sequentialIDGenerator|nextID"), key("O|timing.parallelIDGenerator|nextID")
@@ -107,6 +113,8 @@ package tracing
 // ---- exported registry wrappers owned by C32 (the no-observer fast path touches nothing) ----
 //@ fn MsgIDAtOutgoingBuffer
 //@   property C32
+//@   requires c33IDGenOK()
+//@   ensures c33IDGenOK()
 //@   panics (c33H(domain) != 0 && typeid(msg) == 0)
 //@   label C32.outid.off
 //@   ensures c33H(domain) == 0 ==> result == 0 && nothingAssigned()
@@ -164,6 +172,8 @@ package tracing
 //@ func c32RecvID(domain, msg) = c32Recv[c33Name(domain)][c33MsgID(msg)]
 //@ fn TraceReqReceive
 //@   property C32
+//@   requires c33IDGenOK()
+//@   ensures c33IDGenOK()
 //@   panics c32ReqPanics(domain, msg, 1)
 //@   label C32.receive.off
 //@   ensures c33H(domain) == 0 ==> c32LogSame() && nothingAssigned()
@@ -181,6 +191,8 @@ package tracing
 
 //@ fn TraceReqComplete
 //@   property C32
+//@   requires c33IDGenOK()
+//@   ensures c33IDGenOK()
 //@   panics (c33H(domain) != 0 && typeid(msg) == 0)
 //@   label C32.complete.off
 //@   ensures c33H(domain) == 0 ==> c32LogSame() && nothingAssigned()
@@ -224,3 +236,163 @@ package tracing
 //@   label C32.resetreq.registries
 //@   ensures c32InBuf == old(c32InBuf) && c32OutBuf == old(c32OutBuf)
 //@   assigns c33HookN, c33HookDom, c33HookPos, c33HookTyp, c33HookVal, c32Recv
+
+// ---------------------------------------------------------------------------------------------------------------------
+// (1) the port buffer tracers (incomingbuffertracer.go / outgoingbuffertracer.go)
+// ---------------------------------------------------------------------------------------------------------------------
+// TRUSTED (interface, any port implementation): pure getters. The current head of a port's buffers is ghost state
+// (c32InHead*/c32OutHead*, keyed by the port): nothing in this package changes it.
+//@ ghost var c32InHeadT map
+//@ ghost var c32InHeadV map
+//@ ghost var c32OutHeadT map
+//@ ghost var c32OutHeadV map
+//@ iface messaging.Port.Name()
+//@   trusted
+//@   pure
+//@   panics typeid(self) == 0
+//@   ensures result == c32PortName(self)
+//@ iface messaging.Port.Component()
+//@   trusted
+//@   pure
+//@   panics typeid(self) == 0
+//@   ensures typeid(result) == c32PortCompT(self) && ifaceval(result) == c32PortCompV(self)
+//@ iface messaging.Port.PeekIncoming()
+//@   trusted
+//@   pure
+//@   panics typeid(self) == 0
+//@   ensures typeid(result) == c32InHeadT[ifaceval(self)] && ifaceval(result) == c32InHeadV[ifaceval(self)]
+//@ iface messaging.Port.PeekOutgoing()
+//@   trusted
+//@   pure
+//@   panics typeid(self) == 0
+//@   ensures typeid(result) == c32OutHeadT[ifaceval(self)] && ifaceval(result) == c32OutHeadV[ifaceval(self)]
+
+//@ func c32InHead(port) = mkiface(c32InHeadT[ifaceval(port)], c32InHeadV[ifaceval(port)])
+//@ func c32OutHead(port) = mkiface(c32OutHeadT[ifaceval(port)], c32OutHeadV[ifaceval(port)])
+// the parent of a buffer task: the req_out task of the request (a response is filed under the request it answers)
+//@ func c32Parent(msg) = c33MsgRspTo(msg) != 0 ? c33MsgRspTo(msg) : c33MsgID(msg)
+// the deterministic buffer-task ID of (message, component): the registry entry
+//@ func c32InID(domain, msg) = c32InBuf[c33Name(domain)][c33MsgID(msg)]
+//@ func c32OutID(domain, msg) = c32OutBuf[c33Name(domain)][c33MsgID(msg)]
+//@ pred c32DepthOK(d) = 0 <= d && d < MaxInt64
+
+//@ fn (*incomingBufferHook).markReachedHead
+//@   property C32
+//@   requires c33IDGenOK()
+//@   panics typeid(port) == 0
+//@   label C32.in.head.off
+//@   ensures c33H(domain) == 0 ==> c32LogSame() && nothingAssigned()
+//@   label C32.in.head.milestone
+//@   ensures c33H(domain) != 0 ==> c33HookN == old(c33HookN) + 1 && c32LogKept() && c32IsMilestone(old(c33HookN), domain, taskID, MilestoneKindQueue, c32PortName(port))
+//@   ensures c33IDGenOK()
+//@   assigns c33HookN, c33HookDom, c33HookPos, c33HookTyp, c33HookVal, c33Drawn, c33Issued, key("G|github.com/sarchlab/akita/v5/timing.idGenerator|"), key("G|github.com/sarchlab/akita/v5/timing.idGeneratorInstantiated|"), key("O|timing.sequentialIDGenerator|nextID"), key("O|timing.parallelIDGenerator|nextID")
+
+// what a delivery does when the component is observed: one task started (log entry n0), at most one milestone after it
+//@ pred c32InDelivered(h, domain, port, msg, n0, d0, reg0) = c32RegGet(c32InBuf, reg0, c33Name(domain), c33MsgID(msg), c32InID(domain, msg)) && c32IsStart(n0, domain, c32InID(domain, msg), c32Parent(msg), IncomingBufferTaskKind, c32TypeName(msg), as(c33Item(n0), "TaskStart").Location) && c33HookN == n0 + (d0 == 0 ? 2 : 1) && (d0 == 0 ==> c32IsMilestone(n0 + 1, domain, c32InID(domain, msg), MilestoneKindQueue, c32PortName(port))) && h.depth == d0 + 1
+//@ fn (*incomingBufferHook).onDeliver
+//@   property C32
+//@   requires h != nil && c32DepthOK(h.depth) && c33IDGenOK()
+//@   panics c33H(domain) != 0 && (typeid(domain) == 0 || typeid(msg) == 0 || typeid(port) == 0 || c32TypeName(msg) == "" || c33Name(domain) == "")
+//@   label C32.in.deliver.off
+//@   ensures c33H(domain) == 0 ==> c32LogSame() && nothingAssigned()
+//@   label C32.in.deliver.on
+//@   ensures c33H(domain) != 0 ==> c32InDelivered(h, domain, port, msg, old(c33HookN), old(h.depth), old(c32InBuf))
+//@   label C32.in.deliver.kept
+//@   ensures c32LogKept() && c32Recv == old(c32Recv) && c32OutBuf == old(c32OutBuf)
+//@   ensures c33IDGenOK()
+//@   assigns h.depth, c32InBuf, c33HookN, c33HookDom, c33HookPos, c33HookTyp, c33HookVal, c33Drawn, c33Issued, key("G|github.com/sarchlab/akita/v5/timing.idGenerator|"), key("G|github.com/sarchlab/akita/v5/timing.idGeneratorInstantiated|"), key("O|timing.sequentialIDGenerator|nextID"), key("O|timing.parallelIDGenerator|nextID")
+
+// what a retrieval does when the component is observed: the registered task of the retrieved message is ended (log entry
+// n0) and its registry entry released (reg1); then, if another message is now at the head, one milestone on ITS task.
+//@ func c32RegCleared(reg0, nm, id) = upd(reg0, nm, upd(reg0[nm], id, 0))
+//@ pred c32InRetrieved(h, domain, port, retrieved, n0, d0, reg0) = (reg0[c33Name(domain)][c33MsgID(retrieved)] != 0 ==> c32IsEnd(n0, domain, reg0[c33Name(domain)][c33MsgID(retrieved)])) && c32At(n0, domain, HookPosTaskEnd) && hastype(c33Item(n0), "TaskEnd") && h.depth == (d0 > 0 ? d0 - 1 : 0) && (typeid(c32InHead(port)) == 0 ? (c33HookN == n0 + 1 && c32InBuf == c32RegCleared(reg0, c33Name(domain), c33MsgID(retrieved))) : (c33HookN == n0 + 2 && c32RegGet(c32InBuf, c32RegCleared(reg0, c33Name(domain), c33MsgID(retrieved)), c33Name(domain), c33MsgID(c32InHead(port)), c32InID(domain, c32InHead(port))) && c32IsMilestone(n0 + 1, domain, c32InID(domain, c32InHead(port)), MilestoneKindQueue, c32PortName(port))))
+//@ fn (*incomingBufferHook).onRetrieve
+//@   property C32
+//@   requires h != nil && c32DepthOK(h.depth) && c33IDGenOK()
+//@   panics c33H(domain) != 0 && (typeid(retrieved) == 0 || typeid(port) == 0)
+//@   label C32.in.retrieve.off
+//@   ensures c33H(domain) == 0 ==> c32LogSame() && nothingAssigned()
+//@   label C32.in.retrieve.on
+//@   ensures c33H(domain) != 0 ==> c32InRetrieved(h, domain, port, retrieved, old(c33HookN), old(h.depth), old(c32InBuf))
+//@   label C32.in.retrieve.kept
+//@   ensures c32LogKept() && c32Recv == old(c32Recv) && c32OutBuf == old(c32OutBuf)
+//@   ensures c33IDGenOK()
+//@   assigns h.depth, c32InBuf, c33HookN, c33HookDom, c33HookPos, c33HookTyp, c33HookVal, c33Drawn, c33Issued, key("G|github.com/sarchlab/akita/v5/timing.idGenerator|"), key("G|github.com/sarchlab/akita/v5/timing.idGeneratorInstantiated|"), key("O|timing.sequentialIDGenerator|nextID"), key("O|timing.parallelIDGenerator|nextID")
+
+// The hook entry point. The component is the port's owner, the message is the hook item; the three type assertions are
+// free booleans for the engine, so each case reads "nothing happened, or exactly the delivery / retrieval effect".
+//@ func c32Owner(p) = mkiface(c32PortCompT(p), c32PortCompV(p))
+//@ pred c32Nothing(h) = c32LogSame() && h.depth == old(h.depth) && c32InBuf == old(c32InBuf)
+//@ fn (*incomingBufferHook).Func
+//@   property C32
+//@   requires h != nil && c32DepthOK(h.depth) && c33IDGenOK()
+//@   panics any
+//@   label C32.in.func.otherpos                  // any other hook position: nothing is started, ended or recorded
+//@   ensures ctx.Pos != messaging.HookPosPortMsgRecvd && ctx.Pos != messaging.HookPosPortMsgRetrieveIncoming ==> c32LogSame() && nothingAssigned()
+//@   label C32.in.func.recvd
+//@   ensures ctx.Pos == messaging.HookPosPortMsgRecvd ==> c32Nothing(h) || (c33H(c32Owner(ctx.Domain)) != 0 && c32InDelivered(h, c32Owner(ctx.Domain), ctx.Domain, ctx.Item, old(c33HookN), old(h.depth), old(c32InBuf)))
+//@   label C32.in.func.retrieved
+//@   ensures ctx.Pos != messaging.HookPosPortMsgRecvd && ctx.Pos == messaging.HookPosPortMsgRetrieveIncoming ==> c32Nothing(h) || (c33H(c32Owner(ctx.Domain)) != 0 && c32InRetrieved(h, c32Owner(ctx.Domain), ctx.Domain, ctx.Item, old(c33HookN), old(h.depth), old(c32InBuf)))
+//@   label C32.in.func.kept
+//@   ensures c32LogKept() && c32Recv == old(c32Recv) && c32OutBuf == old(c32OutBuf)
+//@   assigns h.depth, c32InBuf, c33HookN, c33HookDom, c33HookPos, c33HookTyp, c33HookVal, c33Drawn, c33Issued, key("G|github.com/sarchlab/akita/v5/timing.idGenerator|"), key("G|github.com/sarchlab/akita/v5/timing.idGeneratorInstantiated|"), key("O|timing.sequentialIDGenerator|nextID"), key("O|timing.parallelIDGenerator|nextID")
+
+// ---- the outgoing buffer tracer: the same contract over the outgoing registry, HookPosPortMsgSend / HookPosPortMsgRetrieveOutgoing ----
+//@ fn (*outgoingBufferHook).markReachedHead
+//@   property C32
+//@   requires c33IDGenOK()
+//@   panics typeid(port) == 0
+//@   label C32.out.head.off
+//@   ensures c33H(domain) == 0 ==> c32LogSame() && nothingAssigned()
+//@   label C32.out.head.milestone
+//@   ensures c33H(domain) != 0 ==> c33HookN == old(c33HookN) + 1 && c32LogKept() && c32IsMilestone(old(c33HookN), domain, taskID, MilestoneKindQueue, c32PortName(port))
+//@   ensures c33IDGenOK()
+//@   assigns c33HookN, c33HookDom, c33HookPos, c33HookTyp, c33HookVal, c33Drawn, c33Issued, key("G|github.com/sarchlab/akita/v5/timing.idGenerator|"), key("G|github.com/sarchlab/akita/v5/timing.idGeneratorInstantiated|"), key("O|timing.sequentialIDGenerator|nextID"), key("O|timing.parallelIDGenerator|nextID")
+
+// what a sendy does when the component is observed: one task started (log entry n0), at most one milestone after it
+//@ pred c32OutSent(h, domain, port, msg, n0, d0, reg0) = c32RegGet(c32OutBuf, reg0, c33Name(domain), c33MsgID(msg), c32OutID(domain, msg)) && c32IsStart(n0, domain, c32OutID(domain, msg), c32Parent(msg), OutgoingBufferTaskKind, c32TypeName(msg), as(c33Item(n0), "TaskStart").Location) && c33HookN == n0 + (d0 == 0 ? 2 : 1) && (d0 == 0 ==> c32IsMilestone(n0 + 1, domain, c32OutID(domain, msg), MilestoneKindQueue, c32PortName(port))) && h.depth == d0 + 1
+//@ fn (*outgoingBufferHook).onSend
+//@   property C32
+//@   requires h != nil && c32DepthOK(h.depth) && c33IDGenOK()
+//@   panics c33H(domain) != 0 && (typeid(domain) == 0 || typeid(msg) == 0 || typeid(port) == 0 || c32TypeName(msg) == "" || c33Name(domain) == "")
+//@   label C32.out.send.off
+//@   ensures c33H(domain) == 0 ==> c32LogSame() && nothingAssigned()
+//@   label C32.out.send.on
+//@   ensures c33H(domain) != 0 ==> c32OutSent(h, domain, port, msg, old(c33HookN), old(h.depth), old(c32OutBuf))
+//@   label C32.out.send.kept
+//@   ensures c32LogKept() && c32Recv == old(c32Recv) && c32InBuf == old(c32InBuf)
+//@   ensures c33IDGenOK()
+//@   assigns h.depth, c32OutBuf, c33HookN, c33HookDom, c33HookPos, c33HookTyp, c33HookVal, c33Drawn, c33Issued, key("G|github.com/sarchlab/akita/v5/timing.idGenerator|"), key("G|github.com/sarchlab/akita/v5/timing.idGeneratorInstantiated|"), key("O|timing.sequentialIDGenerator|nextID"), key("O|timing.parallelIDGenerator|nextID")
+
+// what a retrieval does when the component is observed: the registered task of the retrieved message is ended (log entry
+// n0) and its registry entry released (reg1); then, if another message is now at the head, one milestone on ITS task.
+//@ pred c32OutRetrieved(h, domain, port, retrieved, n0, d0, reg0) = (reg0[c33Name(domain)][c33MsgID(retrieved)] != 0 ==> c32IsEnd(n0, domain, reg0[c33Name(domain)][c33MsgID(retrieved)])) && c32At(n0, domain, HookPosTaskEnd) && hastype(c33Item(n0), "TaskEnd") && h.depth == (d0 > 0 ? d0 - 1 : 0) && (typeid(c32OutHead(port)) == 0 ? (c33HookN == n0 + 1 && c32OutBuf == c32RegCleared(reg0, c33Name(domain), c33MsgID(retrieved))) : (c33HookN == n0 + 2 && c32RegGet(c32OutBuf, c32RegCleared(reg0, c33Name(domain), c33MsgID(retrieved)), c33Name(domain), c33MsgID(c32OutHead(port)), c32OutID(domain, c32OutHead(port))) && c32IsMilestone(n0 + 1, domain, c32OutID(domain, c32OutHead(port)), MilestoneKindQueue, c32PortName(port))))
+//@ fn (*outgoingBufferHook).onRetrieve
+//@   property C32
+//@   requires h != nil && c32DepthOK(h.depth) && c33IDGenOK()
+//@   panics c33H(domain) != 0 && (typeid(retrieved) == 0 || typeid(port) == 0)
+//@   label C32.out.retrieve.off
+//@   ensures c33H(domain) == 0 ==> c32LogSame() && nothingAssigned()
+//@   label C32.out.retrieve.on
+//@   ensures c33H(domain) != 0 ==> c32OutRetrieved(h, domain, port, retrieved, old(c33HookN), old(h.depth), old(c32OutBuf))
+//@   label C32.out.retrieve.kept
+//@   ensures c32LogKept() && c32Recv == old(c32Recv) && c32InBuf == old(c32InBuf)
+//@   ensures c33IDGenOK()
+//@   assigns h.depth, c32OutBuf, c33HookN, c33HookDom, c33HookPos, c33HookTyp, c33HookVal, c33Drawn, c33Issued, key("G|github.com/sarchlab/akita/v5/timing.idGenerator|"), key("G|github.com/sarchlab/akita/v5/timing.idGeneratorInstantiated|"), key("O|timing.sequentialIDGenerator|nextID"), key("O|timing.parallelIDGenerator|nextID")
+
+// The hook entry point. The component is the port's owner, the message is the hook item; the three type assertions are
+// free booleans for the engine, so each case reads "nothing happened, or exactly the sendy / retrieval effect".
+//@ pred c32OutNothing(h) = c32LogSame() && h.depth == old(h.depth) && c32OutBuf == old(c32OutBuf)
+//@ fn (*outgoingBufferHook).Func
+//@   property C32
+//@   requires h != nil && c32DepthOK(h.depth) && c33IDGenOK()
+//@   panics any
+//@   label C32.out.func.otherpos                  // any other hook position: nothing is started, ended or recorded
+//@   ensures ctx.Pos != messaging.HookPosPortMsgSend && ctx.Pos != messaging.HookPosPortMsgRetrieveOutgoing ==> c32LogSame() && nothingAssigned()
+//@   label C32.out.func.sent
+//@   ensures ctx.Pos == messaging.HookPosPortMsgSend ==> c32OutNothing(h) || (c33H(c32Owner(ctx.Domain)) != 0 && c32OutSent(h, c32Owner(ctx.Domain), ctx.Domain, ctx.Item, old(c33HookN), old(h.depth), old(c32OutBuf)))
+//@   label C32.out.func.retrieved
+//@   ensures ctx.Pos != messaging.HookPosPortMsgSend && ctx.Pos == messaging.HookPosPortMsgRetrieveOutgoing ==> c32OutNothing(h) || (c33H(c32Owner(ctx.Domain)) != 0 && c32OutRetrieved(h, c32Owner(ctx.Domain), ctx.Domain, ctx.Item, old(c33HookN), old(h.depth), old(c32OutBuf)))
+//@   label C32.out.func.kept
+//@   ensures c32LogKept() && c32Recv == old(c32Recv) && c32InBuf == old(c32InBuf)
+//@   assigns h.depth, c32OutBuf, c33HookN, c33HookDom, c33HookPos, c33HookTyp, c33HookVal, c33Drawn, c33Issued, key("G|github.com/sarchlab/akita/v5/timing.idGenerator|"), key("G|github.com/sarchlab/akita/v5/timing.idGeneratorInstantiated|"), key("O|timing.sequentialIDGenerator|nextID"), key("O|timing.parallelIDGenerator|nextID")
